@@ -103,8 +103,8 @@ func checkCase(ctx *xplor.Ctx, p *lx.Prepared, net nk.Net, word []int, alpha []l
 			return fmt.Sprintf("a block containing %s was accepted by the validator", what)
 		}
 		if p.Node.StoreDigest() != before {
-			_ = p.Reset()
-			return fmt.Sprintf("a block containing %s was refused (%v) but the node's stores/best/state root changed", what, err)
+			defer p.Reset()
+			return fmt.Sprintf("a block containing %s was refused (%v) but the node changed: [chain store, state store, pointers] %s -> %v", what, err, before, p.Node.StoreDigestParts())
 		}
 		return ""
 	}
